@@ -40,7 +40,7 @@ CHECKS = {
   note="The scripted transport stands in for net/http.Transport plus a registry (no sockets). Inside each enumerated class the concrete status, size and token-service script are seed-drawn. Cancellation verdicts come from the attempt counter and a goroutine dump, not from timing. Held on the executions observed.",
   tech="runtime monitoring: per-attempt byte/attempt/pause oracle over exhaustive and random server-behaviour scripts, logical policy sweep"),
  "C06": dict(cat="exploration",
-  text="Sequential histories of 60-400 Push/Fetch/Exists/Tag/Resolve/Predecessors (plus Untag, Delete, Tags, SaveIndex on the OCI layout) run on memory, OCI and file stores under their documented options; every result is compared with a content-map plus tag-map model and the full observable state is compared after every refused or failed step. Concurrent histories (4-16 goroutines, few keys, unique values) are recorded at the client boundary and checked with porcupine per content key and per reference; every Fetch result is re-hashed; Predecessors is compared at quiescence; the same workload runs under the race detector.",
+  text="Sequential histories of 60-400 Push/Fetch/Exists/Tag/Resolve/Predecessors (plus Untag, Delete, Tags, SaveIndex on the OCI layout) run on memory, OCI and file stores under their documented options; every result is compared with a content-map plus tag-map model and the full observable state is compared after every refused or failed step. Concurrent histories (4-16 goroutines, few keys, unique values) are recorded at the client boundary and checked with porcupine per content key and per reference; every Fetch result is re-hashed; Predecessors is compared at quiescence; an OCI cross-partition phase (Tag, Untag, Resolve against Delete and re-Push of the same descriptor) is judged by a combined per-descriptor linearizability model, a quiescent no-dangling-reference / Tags-consistency invariant and a real-time rule; the same workloads run under the race detector.",
   note="Concurrent-phase relaxations (statement is silent on results of overlapping writes): a Push linearized onto identical bytes may return nil or already-exists; an Untag linearized onto an untagged reference may return nil or not-found. Unjudged: a file-store name held by other bytes (only 'never wrong bytes'), the AutoGC cascade (C09), reopen (C08). Trusted: porcupine v1.3.0, the harness model, go-digest. One known finding (plain descriptor accepted although present via a named file) is listed.",
   tech="runtime monitoring: model-based sequential oracle, porcupine linearizability check of recorded histories, hook jitter, Go race detector"),
  "C14": dict(cat="exploration",
@@ -60,8 +60,8 @@ CHECKS = {
   note="Default options only; times and link counts of outside objects are not judged. Pre-existing links in the working directory point inside only. Linux, root, single file system. Trusted base: the harness's snapshot and diff code. Exhaustive only over the stated vocabulary and lengths.",
   tech="runtime monitoring: sandboxed file-system snapshot-diff monitor, bounded-exhaustive plus random tar/title generation"),
  "C08": dict(cat="exploration",
-  text="Seeded random operation histories (Push, bad push, Tag, re-tag, Untag, Delete, GC, SaveIndex; AutoSaveIndex and AutoGC on/off; annotated descriptors, tags on blobs, odd reference names) over random Merkle DAGs run on the real oci.Store. After every step the raw directory is validated against the on-disk clauses (oci-layout and index.json parse, blobs named by their digest, named index entries point to existing blobs of the recorded size) and the full public-API observable state of the original (Tags, Resolve by tag and by digest, Exists, Fetch, Predecessors) is compared with the same directory reopened read-write, through fs.FS and from tar archives written by archive/tar and by the system tar.",
-  note="One media type per digest; Tag descriptors carry the true media type and size. With AutoSaveIndex off the layout is judged only after SaveIndex. Trusted base: the harness validator (go-digest, encoding/json), archive/tar, the system tar. Held on the histories explored.",
+  text="Seeded random operation histories (Push, bad push, Tag, re-tag, Untag, Delete, GC, SaveIndex; AutoSaveIndex and AutoGC on/off; annotated descriptors, tags on blobs, odd reference names) over random Merkle DAGs run on the real oci.Store. After every step the raw directory is validated against the on-disk clauses (oci-layout and index.json parse, blobs named by their digest, named index entries point to existing blobs of the recorded size) and the full public-API observable state of the original (Tags, Resolve by tag and by digest, Exists, Fetch, Predecessors) is compared with the same directory reopened read-write, through fs.FS and from tar archives written by archive/tar and by the system tar. Tag descriptors carry annotations, platform, artifactType, urls and data. A concurrent Tag/Untag/Push sub-phase is judged at quiescence (original = reopened), also under the Go race detector.",
+  note="One media type per digest; Tag descriptors carry the true media type and size. Schedules of the concurrent sub-phase are sampled (yield hook at oci.tag.beforeSaveIndex), not enumerated. With AutoSaveIndex off the layout is judged only after SaveIndex. Trusted base: the harness validator (go-digest, encoding/json), archive/tar, the system tar. Held on the histories explored.",
   tech="runtime monitoring: on-disk layout validator + differential observation of original vs reopened stores over seeded histories"),
  "C10": dict(cat="fault_enumeration",
   text="For each of 44 hand-scripted and 56 (quick) / 1500 (thorough) seeded histories, every file-system-mutating system call inside the one interrupted operation (Push, Tag, Untag, Delete with and without cascade, SaveIndex, GC) is a crash point: a ptrace supervisor kills the process at the entry of the k-th such call for every k, each on a fresh copy of the prepared directory. Every crashed directory is reopened by a fresh untraced process and checked in full (opens, blobs hash to their names, every index entry names an existing blob, tag mapping equals the before or the after mapping obtained from uninterrupted runs, effects of returned operations present).",
